@@ -32,7 +32,30 @@ def who(tid, c):
         if tid == base:
             return "WSync"
         base += 1
+    nu = len(c.get("ups") or [])
+    if tid < base + nu:
+        return "WUser %d%%nat" % (tid - base)
+    base += nu
     return "WGor %d%%nat" % (tid - base)
+
+
+def schedule(c):
+    """model thread of every implementation step; a Flush made inside OnData (mark 13 and the state load that
+    follows it, both on the goroutine's tid) is the extra user thread of the model"""
+    out, inflush = [], set()
+    nu = len(c.get("ups") or [])
+    for s in c["steps"]:
+        w = who(s["tid"], c)
+        ev = s.get("ev")
+        if w.startswith("WGor"):
+            if ev and ev["k"] == 7 and ev["a"] == 13:
+                inflush.add(s["tid"])
+                w = "WUser %d%%nat" % nu
+            elif s["tid"] in inflush:
+                inflush.discard(s["tid"])
+                w = "WUser %d%%nat" % nu
+        out.append(w)
+    return out
 
 
 def event(ev):
@@ -50,13 +73,18 @@ def case_to_coq(c):
     inb = core.coq_list([("EData " + zl(e)) if e else "EClose" for e in c["inb"]])
     scr = core.coq_list(["(%d%%nat, %d%%nat)" % (k, cl) for (k, cl) in (c.get("script") or [])])
     sy = core.coq_list(["%d%%nat" % k for k in (c.get("sync") or [])])
-    sch = core.coq_list([who(s["tid"], c) for s in c["steps"]])
+    sch = core.coq_list(schedule(c))
+    ups = [[[b] for b in u] for u in (c.get("ups") or [])]
+    if c.get("infl"):
+        ups.append([[9]] * sum(c["infl"]))
+    upsq = core.coq_list([core.coq_list([zl(m) for m in u]) for u in ups])
+    uresq = core.coq_list([core.coq_list(["true" if b else "false" for b in (u or [])]) for u in (c.get("ures") or [])])
     evs = core.coq_list([event(s["ev"]) for s in c["steps"]])
     offers = core.coq_list([zl(o) for o in (c["offers"] or [])])
-    return ("{| s_cb0 := %s; s_inb := %s; s_ncl := %d%%nat; s_script := %s; s_sy := %s; s_sched := %s; s_events := %s; "
-            "s_offers := %s; s_consumed := %s; s_final := %s; s_recv := %s; s_pend := %s; s_finished := %s |}"
-            % ("true" if c["cb0"] else "false", inb, c["ncl"], scr, sy, sch, evs, offers, zl(c["consumed"]),
-               zl(c["final"]), zl(c["recv"]), zl(c["pend"]), "true" if c.get("finished") else "false"))
+    return ("{| s_cb0 := %s; s_inb := %s; s_ncl := %d%%nat; s_script := %s; s_sy := %s; s_ups := %s; s_sched := %s; s_events := %s; "
+            "s_offers := %s; s_consumed := %s; s_final := %s; s_recv := %s; s_pend := %s; s_finished := %s; s_ures := %s |}"
+            % ("true" if c["cb0"] else "false", inb, c["ncl"], scr, sy, upsq, sch, evs, offers, zl(c["consumed"]),
+               zl(c["final"]), zl(c["recv"]), zl(c["pend"]), "true" if c.get("finished") else "false", uresq))
 
 
 def eval_cases(cases, tag, prop=PROP):
@@ -91,7 +119,8 @@ def eval_cases(cases, tag, prop=PROP):
 KIND = {1: "access trace differs from the model at step %s", 2: "the bytes offered to the OnData invocations differ from the model",
         3: "the bytes consumed differ from the model", 4: "final state/flag/closeState/table/callback counters/close elements differ from the model",
         5: "bytes left in recvBuf/pendingData differ from the model",
-        6: "every implementation thread finished but a model thread still has steps to take"}
+        6: "every implementation thread finished but a model thread still has steps to take",
+        7: "the results of the user Flush calls (nil / ErrStreamClosed) differ from the model"}
 
 
 def run_harness(test, files_prop, n, seed, tag, extra_env=None):
@@ -113,7 +142,7 @@ def run_harness(test, files_prop, n, seed, tag, extra_env=None):
 
 
 def brief(c):
-    return {k: c.get(k) for k in ("id", "strat", "kind", "cb0", "inb", "ncl", "setter", "sync", "script", "offers", "consumed",
+    return {k: c.get(k) for k in ("id", "strat", "kind", "cb0", "inb", "ncl", "setter", "sync", "script", "ups", "infl", "ures", "ndata", "offers", "consumed",
                                   "final", "recv", "pend", "finished")} | {"schedule": [s["tid"] for s in (c.get("steps") or [])]}
 
 
